@@ -32,6 +32,7 @@ pub struct Verdict {
     pub quiescent_points: u64,
     pub max_in_flight: usize,
     pub virtual_time: u64,
+    pub max_polls: u64,
     pub trace_hash: u64,
     pub summary: String,
 }
@@ -93,6 +94,7 @@ pub fn base_verdict(sc: &Scenario, rec: &RunRecord) -> Verdict {
     v.quiescent_points = rec.stats.quiescent_points;
     v.max_in_flight = rec.stats.max_in_flight;
     v.virtual_time = rec.stats.virtual_time;
+    v.max_polls = rec.stats.max_polls_in_a_solve;
     v.faults = fault_counts(sc, rec);
     for (i, o) in rec.outcomes.iter().enumerate() {
         if let crate::run::Outcome::Ok(sol) = o {
